@@ -1,0 +1,32 @@
+// Copyright 2026 SCION Association
+//
+// Licensed under the Apache License, Version 2.0 (the "License");
+// you may not use this file except in compliance with the License.
+// You may obtain a copy of the License at
+//
+//   http://www.apache.org/licenses/LICENSE-2.0
+//
+// Unless required by applicable law or agreed to in writing, software
+// distributed under the License is distributed on an "AS IS" BASIS,
+// WITHOUT WARRANTIES OR CONDITIONS OF ANY KIND, either express or implied.
+// See the License for the specific language governing permissions and
+// limitations under the License.
+
+//go:build verif
+
+package conn
+
+import "net"
+
+// VerifUDPConn returns the UDP socket underneath a Conn made by New (nil for foreign
+// implementations). Thin export for the external verification harness (/verif): it lets the harness
+// read socket options back; no behaviour of its own.
+func VerifUDPConn(c Conn) *net.UDPConn {
+	switch cc := c.(type) {
+	case *connUDPIPv4:
+		return cc.conn
+	case *connUDPIPv6:
+		return cc.conn
+	}
+	return nil
+}
